@@ -240,7 +240,7 @@ def run(ctx):
             r = gp0.py_call({"proto": "P", "fin": "binary", "fout": "ndjson", "data": data.hex(), "mode": "copy"})
             acc_py, del_py = r["ok"], [ln for ln in r["out"].split("\n")[1:] if ln]
             res = [("python", acc_py, del_py)]
-            if ids[0] in cpp_ids and (not quick or pos % 9 == 0):
+            if ids[0] in cpp_ids and (not quick or pos % 9 == 0 or pos < 12):     # magic and version bytes: always, in both languages
                 c = genrun_cpp_limited(gp0, "P", "binary", "ndjson", data)
                 res.append(("c++", c["ok"], [ln for ln in c["out"].decode(errors="replace").split("\n")[1:] if ln]))
             region = "magic" if pos < 5 else ("version" if pos < 9 else "schema")
